@@ -370,11 +370,11 @@ Proof.
   reflexivity.
 Qed.
 
-(* NOT PROVED (time): the U entry of the model is Algorithm 4/5 —
+(* The U entry of the model is Algorithm 4/5 —
    Theorem user_hash_model_eq_spec : forall R n pw O P id, (1 <= n)%nat -> 2 <= R ->
      firstn (sig_len R) (m_compute_user_hash R n pw O P (Some id)) = alg45_sig R n pw O P id true.
-   It follows from key_model_eq_spec_thm, m_rc4'_eq and fold_rc4_eq exactly as
-   owner_hash_model_eq_spec_thm does; the correspondence run checks it case by case. *)
+   PROVED in UserHash.v (user_hash_model_eq_spec_thm), together with validate_user_password =
+   Algorithm 6 and user_auth_sound/complete; model 2.B = spec 2.B is in Alg2B.v. *)
 
 (** passwords made of printable ASCII are the same bytes in PDFDocEncoding and UTF-8 *)
 Theorem pdfdoc_ascii_thm cps :
